@@ -1119,8 +1119,9 @@ class FuncContains(ValueFunc):
         obj = args.get("obj")
         if obj.isList() or obj.isSet() or obj.isMap() or obj.isObject():
             return ValueBoolean.fromval(args.get("part") in obj.value)
+        text = obj.value if obj.isString() else str(obj)
         return ValueBoolean.fromval(
-            str(obj).find(args.getString("part").value) != -1
+            text.find(args.getString("part").value) != -1
         )
 
 
